@@ -57,7 +57,7 @@ func (r *Run) havoc(t types.Type) Value {
 		case u.Info()&types.IsInteger != 0:
 			return r.hvar(widthOf(t))
 		case u.Info()&types.IsString != 0:
-			n := int(r.chooseInt(0, r.param("maxstr", 1)))
+			n := int(r.chooseStrLen())
 			s := &StrV{b: make([]*Term, n)}
 			for i := range s.b {
 				s.b[i] = r.hvar(8)
@@ -91,6 +91,23 @@ func (r *Run) havoc(t types.Type) Value {
 	}
 	endPath("engine", "havoc of %v", t)
 	return nil
+}
+
+// chooseStrLen: a havoc'd string has every length 0..maxstr, or (param strlens = bit mask) one of the listed lengths
+func (r *Run) chooseStrLen() int64 {
+	mask := r.param("strlens", 0)
+	if mask == 0 {
+		return r.chooseInt(0, r.param("maxstr", 1))
+	}
+	v := r.hvar(64)
+	c := False
+	for i := int64(0); i < 62; i++ {
+		if mask&(1<<uint(i)) != 0 {
+			c = Or(c, Eq(v, BVi(i, 64)))
+		}
+	}
+	r.addPC(c)
+	return r.concretise(v, "havoc string length")
 }
 
 func (r *Run) chooseInt(lo, hi int64) int64 {
@@ -186,6 +203,7 @@ type stubSpec struct {
 	name   string // ssa function name
 	outs   []string
 	hasErr bool
+	custom string // Go source of a custom native body (block contents), instead of the generated one
 }
 
 func (e *Engine) stub(set, name string, spec *stubSpec, f intrinsic) {
@@ -212,7 +230,18 @@ func (e *Engine) stub(set, name string, spec *stubSpec, f intrinsic) {
 		}
 		r.ghostLog("args:"+name, rec)
 		n0 := len(r.stubLog)
-		res := f(r, fr, cc, a)
+		var res Value
+		if sc, ok := r.popScript(name); ok && spec != nil && fn != nil {
+			if spec.custom != "" {
+				r.curScript = &sc // stubs with a custom protocol interpret their script themselves
+				res = f(r, fr, cc, a)
+				r.curScript = nil
+			} else {
+				res = r.scriptedResult(fr, fn, spec, sc, a)
+			}
+		} else {
+			res = f(r, fr, cc, a)
+		}
 		ok := True
 		if len(r.stubLog) > n0 && r.stubLog[len(r.stubLog)-1].kind == "err" {
 			ok = False
@@ -224,6 +253,74 @@ func (e *Engine) stub(set, name string, spec *stubSpec, f intrinsic) {
 		spec.name = name
 		e.nativeStubs[name] = spec
 	}
+}
+
+type scripted struct {
+	kind string
+	outs []Value
+}
+
+// popScript: the harness may script what a stub returns next (zzverif.ScriptStub).
+func (r *Run) popScript(name string) (scripted, bool) {
+	for k, v := range r.ghost {
+		if strings.HasPrefix(k, "script:") && strings.HasSuffix(name, k[len("script:"):]) {
+			q := v.([]Value)
+			if len(q) == 0 {
+				return scripted{}, false
+			}
+			r.ghost[k] = q[1:]
+			return q[0].(scripted), true
+		}
+	}
+	return scripted{}, false
+}
+
+// scriptedResult builds the stub's result from scripted outputs (same logging as a nondeterministic result).
+func (r *Run) scriptedResult(fr *Frame, fn *ssa.Function, spec *stubSpec, sc scripted, a []Value) Value {
+	sig := fn.Signature
+	nres := sig.Results().Len()
+	tup := make(TupleV, nres)
+	for i := 0; i < nres; i++ {
+		tup[i] = zeroValue(sig.Results().At(i).Type())
+	}
+	var logV []Value
+	var logT []types.Type
+	outs := spec.outs
+	if spec.custom != "" {
+		outs = nil
+		for i := 0; i < nres-1; i++ {
+			outs = append(outs, fmt.Sprintf("ret%d", i))
+		}
+	}
+	for i, o := range outs {
+		if i >= len(sc.outs) {
+			break
+		}
+		v := sc.outs[i]
+		if iv, ok := v.(*IfaceV); ok {
+			v = iv.v
+		}
+		if o == "recv" {
+			p := a[0].(*PtrV)
+			r.store(p, v, lbl("scripted "+fn.String()))
+			logV, logT = append(logV, p), append(logT, sig.Recv().Type())
+		} else {
+			var k int
+			fmt.Sscanf(o, "ret%d", &k)
+			tup[k] = v
+			logV, logT = append(logV, v), append(logT, sig.Results().At(k).Type())
+		}
+	}
+	if sc.kind == "err" {
+		r.logStub(fn.String(), "err", logV, logT)
+		tup[nres-1] = r.errNew(fr, "stub: scripted failure")
+	} else {
+		r.logStub(fn.String(), "val", logV, logT)
+	}
+	if nres == 1 {
+		return tup[0]
+	}
+	return tup
 }
 
 // ghostBySuffix finds the ghost log whose stub name ends with the given short name.
@@ -308,6 +405,8 @@ func (e *Engine) registerStubs() {
 		r.logStub("math/rand.Intn", "val", []Value{v}, []types.Type{types.Typ[types.Int]})
 		return v
 	}
+	in[rtPkg+".Intn"] = in["math/rand.Intn"]
+	in["randstub:math/rand.Intn"] = in["math/rand.Intn"]
 	in[rtPkg+".Ghost"] = func(r *Run, fr *Frame, cc *ssa.CallCommon, a []Value) Value {
 		k, _ := a[0].(*StrV).Concrete()
 		if v, ok := r.ghost[k]; ok {
@@ -321,6 +420,18 @@ func (e *Engine) registerStubs() {
 			return BVi(int64(len(v.([]Value))), 64)
 		}
 		return BVi(0, 64)
+	}
+	in[rtPkg+".ScriptStub"] = func(r *Run, fr *Frame, cc *ssa.CallCommon, a []Value) Value {
+		short, _ := a[0].(*StrV).Concrete()
+		kind, _ := a[1].(*StrV).Concrete()
+		sc := scripted{kind: kind}
+		if sl, ok := a[2].(*SliceV); ok {
+			for i := 0; i < sl.len; i++ {
+				sc.outs = append(sc.outs, copyVal(elemsOf(sl)[sl.off+i]))
+			}
+		}
+		r.ghostLog("script:"+short, sc)
+		return TupleV{}
 	}
 	in[rtPkg+".CallCount"] = func(r *Run, fr *Frame, cc *ssa.CallCommon, a []Value) Value {
 		k, _ := a[0].(*StrV).Concrete()
@@ -344,9 +455,24 @@ func (e *Engine) registerStubs() {
 		}
 		return l[i]
 	}
+	in["log.New"] = func(r *Run, fr *Frame, cc *ssa.CallCommon, a []Value) Value {
+		return &PtrV{obj: r.newObj(types.Typ[types.Int], BVi(0, 64), "logger")}
+	}
 	in["context.Background"] = func(r *Run, fr *Frame, cc *ssa.CallCommon, a []Value) Value { return &IfaceV{} }
 	in["github.com/hashicorp/go-uuid.GenerateUUID"] = func(r *Run, fr *Frame, cc *ssa.CallCommon, a []Value) Value {
-		return TupleV{concStr("00000000-0000-0000-0000-000000000000"), &IfaceV{}}
+		// 16 bytes from crypto/rand (the same input stream as natively), formatted 8-4-4-4-12 in lower-case hex
+		out := &StrV{}
+		nib := func(n *Term) *Term {
+			return Ite(ULt(n, BVu(10, 4)), Add(ZExt(n, 8), BVu('0', 8)), Add(ZExt(n, 8), BVu('a'-10, 8)))
+		}
+		for i := 0; i < 16; i++ {
+			if i == 4 || i == 6 || i == 8 || i == 10 {
+				out.b = append(out.b, BVu('-', 8))
+			}
+			b := r.input(8)
+			out.b = append(out.b, nib(Extract(b, 7, 4)), nib(Extract(b, 3, 0)))
+		}
+		return TupleV{out, &IfaceV{}}
 	}
 	// math/big as 64-bit boxes (only NewInt / rand.Int / Int64 are needed)
 	box := func(r *Run, t *Term) Value { return &PtrV{obj: r.newObj(types.Typ[types.Int64], t, "bigint")} }
@@ -355,6 +481,7 @@ func (e *Engine) registerStubs() {
 		max := a[1].(*PtrV).obj.val.(*Term)
 		v := r.hvar(64)
 		r.addPC(And(SLe(BVi(0, 64), v), SLt(v, max)))
+		r.randInts = append(r.randInts, v)
 		return TupleV{box(r, v), &IfaceV{}}
 	}
 	in["(*math/big.Int).Int64"] = func(r *Run, fr *Frame, cc *ssa.CallCommon, a []Value) Value { return a[0].(*PtrV).obj.val }
@@ -393,6 +520,92 @@ func (e *Engine) registerStubs() {
 		return TupleV{&SliceV{}, r.errNew(fr, "stub: integrity check failed")}
 	})
 
+	// ---- the network as seen by the exchanges (stub set "kdcstub"): reply bytes, a transport error, or a KRB-ERROR ----
+	sname := "(*github.com/jcmturner/gokrb5/v8/client.Client).sendToKDC"
+	e.stub("kdcstub", sname, &stubSpec{custom: `
+	zzverif.StubArgs("`+sname+`", cl, b, realm)
+	var zzrb []byte
+	var zzcode int32
+	var zzcrealm string
+	zzerr := zzverif.Stub("`+sname+`", &zzrb, &zzcode, &zzcrealm)
+	if zzerr != nil && zzcode >= 0 {
+		return zzrb, messages.KRBError{ErrorCode: zzcode, CRealm: zzcrealm}
+	}
+	return zzrb, zzerr
+`}, func(r *Run, fr *Frame, cc *ssa.CallCommon, a []Value) Value {
+		i32, strT := types.Typ[types.Int32], types.Typ[types.String]
+		unwrap := func(v Value) Value {
+			if iv, ok := v.(*IfaceV); ok {
+				return iv.v
+			}
+			return v
+		}
+		if sc := r.curScript; sc != nil {
+			// scripted: "val" [reply bytes] | "err" (network) | "krberr" code [crealm]
+			switch sc.kind {
+			case "val":
+				rb := r.bytesToSlice([]*Term{r.hvar(8)})
+				if len(sc.outs) > 0 {
+					rb = unwrap(sc.outs[0]).(*SliceV)
+				}
+				r.logStub(sname, "val", []Value{rb, BVi(-1, 32), &StrV{}}, []types.Type{bytesT, i32, strT})
+				return TupleV{rb, &IfaceV{}}
+			case "err":
+				r.logStub(sname, "err", []Value{&SliceV{}, BVi(-1, 32), &StrV{}}, []types.Type{bytesT, i32, strT})
+				return TupleV{&SliceV{}, r.errNew(fr, "stub: network error")}
+			case "krberr":
+				kt := r.eng.prog.ImportedPackage("github.com/jcmturner/gokrb5/v8/messages").Type("KRBError").Type()
+				code := unwrap(sc.outs[0]).(*Term)
+				var crealm Value = &StrV{}
+				if len(sc.outs) > 1 {
+					crealm = unwrap(sc.outs[1])
+				}
+				ke := zeroValue(kt).(StructV)
+				st := kt.Underlying().(*types.Struct)
+				for i := 0; i < st.NumFields(); i++ {
+					switch st.Field(i).Name() {
+					case "ErrorCode":
+						ke[i] = code
+					case "CRealm":
+						ke[i] = crealm
+					}
+				}
+				r.logStub(sname, "err", []Value{&SliceV{}, code, crealm}, []types.Type{bytesT, i32, strT})
+				return TupleV{&SliceV{}, &IfaceV{t: kt, v: ke}}
+			}
+			endPath("engine", "sendToKDC: unknown script kind %q", sc.kind)
+		}
+		kind := r.hvar(8)
+		r.addPC(ULe(kind, BVu(2, 8)))
+		switch r.concretise(kind, "KDC behaviour") {
+		case 0:
+			rb := r.bytesToSlice([]*Term{r.hvar(8)})
+			r.logStub(sname, "val", []Value{rb, BVi(-1, 32), &StrV{}}, []types.Type{bytesT, i32, strT})
+			return TupleV{rb, &IfaceV{}}
+		case 1:
+			r.logStub(sname, "err", []Value{&SliceV{}, BVi(-1, 32), &StrV{}}, []types.Type{bytesT, i32, strT})
+			return TupleV{&SliceV{}, r.errNew(fr, "stub: network error")}
+		}
+		// a KRB-ERROR from the KDC with an arbitrary non-negative code (and client realm, used for WRONG_REALM referrals)
+		kt := r.eng.prog.ImportedPackage("github.com/jcmturner/gokrb5/v8/messages").Type("KRBError").Type()
+		code := r.hvar(32)
+		r.addPC(SLe(BVi(0, 32), code))
+		crealm := r.havoc(strT)
+		ke := zeroValue(kt).(StructV)
+		st := kt.Underlying().(*types.Struct)
+		for i := 0; i < st.NumFields(); i++ {
+			switch st.Field(i).Name() {
+			case "ErrorCode":
+				ke[i] = code
+			case "CRealm":
+				ke[i] = crealm
+			}
+		}
+		r.logStub(sname, "err", []Value{&SliceV{}, code, crealm}, []types.Type{bytesT, i32, strT})
+		r.ghostLog("krberror-code", code)
+		return TupleV{&SliceV{}, &IfaceV{t: kt, v: ke}}
+	})
+
 	// ---- PAC processing as seen by the AP-REQ verifier (stub set "pacstub"): no PAC, or a PAC that fails ----
 	pname := "(*github.com/jcmturner/gokrb5/v8/messages.Ticket).GetPACType"
 	e.stub("pacstub", pname, &stubSpec{outs: []string{"ret0"}, hasErr: true}, func(r *Run, fr *Frame, cc *ssa.CallCommon, a []Value) Value {
@@ -414,12 +627,25 @@ func (e *Engine) registerStubs() {
 		if !strings.HasPrefix(pp, "github.com/jcmturner/gokrb5/v8/") {
 			continue
 		}
+		set := "asn1havoc"
+		if !strings.HasSuffix(pp, "/pac") && !callsASN1Decoder(fn) {
+			continue // a byte-level parser that happens to be called Unmarshal: executed from its real code
+		}
+		if strings.HasSuffix(pp, "/pac") {
+			// PAC: the NDR-encoded structures are stubbed (set "ndrhavoc"); the byte-level readers run from their real code
+			switch fn.Signature.Recv().Type().(*types.Pointer).Elem().(*types.Named).Obj().Name() {
+			case "KerbValidationInfo", "S4UDelegationInfo", "ClientClaimsInfo", "DeviceInfo", "DeviceClaimsInfo", "CredentialsInfo", "SECPKGSupplementalCred":
+				set = "ndrhavoc"
+			default:
+				continue
+			}
+		}
 		pt, ok := fn.Signature.Recv().Type().(*types.Pointer)
 		if !ok || fn.Signature.Params().Len() != 1 || fn.Signature.Results().Len() != 1 {
 			continue
 		}
 		name, typ := fn.String(), pt.Elem()
-		e.stub("asn1havoc", name, &stubSpec{outs: []string{"recv"}, hasErr: true}, func(r *Run, fr *Frame, cc *ssa.CallCommon, a []Value) Value {
+		e.stub(set, name, &stubSpec{outs: []string{"recv"}, hasErr: true}, func(r *Run, fr *Frame, cc *ssa.CallCommon, a []Value) Value {
 			p := a[0].(*PtrV)
 			if p.obj == nil {
 				r.mustNot(True, "nil", lbl(name), "nil receiver")
@@ -456,4 +682,18 @@ func (r *Run) ghostLog(k string, v Value) {
 		l = o.([]Value)
 	}
 	r.ghost[k] = append(l, v)
+}
+
+// callsASN1Decoder: the function calls the reflection-driven gofork asn1 decoder directly.
+func callsASN1Decoder(fn *ssa.Function) bool {
+	for _, b := range fn.Blocks {
+		for _, ins := range b.Instrs {
+			if c, ok := ins.(ssa.CallInstruction); ok {
+				if f := c.Common().StaticCallee(); f != nil && f.Pkg != nil && f.Pkg.Pkg.Path() == "github.com/jcmturner/gofork/encoding/asn1" && strings.HasPrefix(f.Name(), "Unmarshal") {
+					return true
+				}
+			}
+		}
+	}
+	return false
 }
